@@ -181,6 +181,15 @@ fn expressions(tier: Tier) -> Vec<(String, String, &'static str)> {
                     v.push((format!("unAssert.{l}"), format!("{}({a} :: T)", sp(u)), "Luau"));
                     v.push((format!("unIfexpr.{l}"), format!("{}(if {a} then {b} else {c})", sp(u)), "Luau"));
                 }
+                // a parenthesised unary operation over an if-expression or an assertion, as an operand
+                for u in UN51 {
+                    for o in BIN51 {
+                        v.push((format!("unIfexprParenL.{l}"), format!("({}if {a} then {b} else {c}) {o} {d}", sp(u)), "Luau"));
+                        v.push((format!("unIfexprParenMid.{l}"), format!("{d} {o} ({}if {a} then {b} else {c}) {o} {a}", sp(u)), "Luau"));
+                        v.push((format!("unAssertParenL.{l}"), format!("({}{a} :: T) {o} {b}", sp(u)), "Luau"));
+                        v.push((format!("unAssertParenMid.{l}"), format!("{c} {o} ({}{a} :: T) {o} {b}", sp(u)), "Luau"));
+                    }
+                }
                 for e in [
                     format!("({a} :: T) :: U"),
                     format!("(({a} :: T) :: U)"),
